@@ -182,6 +182,152 @@ def integer_getter(prog, ctx, g, f, width, signed):
                      key="sign:%s" % g)
 
 
+def r10_refusal_reasons(prog, ctx, g, f, width, signed):
+    """R10: "returns the literal's value when the type can represent it": the conversion error is returned ONLY for the documented
+    reasons - no digits (`endptr == <the text converted>`), ERANGE, `errno != 0 && value == 0`, a value outside the limits of the
+    result type, a minus sign for the unsigned types.  Every test that sends the getter to ECONF_VALUE_CONVERSION_ERROR is one of them."""
+    cfg = f.cfg
+    call = conv.strto_call(f)
+    text = render(call.call_args()[0])
+    endp = None
+    a1 = call.call_args()[1].strip()
+    if a1.k == "UnaryOperator" and a1.j.get("op") == "&":
+        endp = render(a1.children[0])
+    up = call.up()
+    val = up.j["decls"][0]["name"] if up is not None and up.k == "DeclStmt" else (render(up.children[0]) if up is not None and up.k == "BinaryOperator" and up.j.get("op") == "=" else None)
+    lo, hi = conv.LIMITS[(width, signed)]
+    errs = [r for r in f.returns() if query.returned_constant(r) == "ECONF_VALUE_CONVERSION_ERROR"]
+    if not errs or val is None:
+        ctx.inconclusive("R10", "%s refuses only for the documented reasons" % g, f.where, "conversion-error return / converted value not found")
+        return
+    eb = set(cfg.block_of(r) for r in errs)
+    bad, seen = None, 0
+    cb = cfg.block_of(call)
+    for (b, i, s2) in cfg.edges():
+        if s2 not in eb or b in eb or cb not in cfg.reachable(b, forward=False):
+            continue
+        lit = cfg.edge_lit(b, i)
+        if lit is None:
+            continue
+        seen += 1
+        l_t, r_t = (render(lit.lhs), render(lit.rhs)) if lit.kind in ("eq", "lt") else (None, None)
+        l_v, r_v = (conv.const_of(lit.lhs), conv.const_of(lit.rhs)) if lit.kind in ("eq", "lt") else (None, None)
+        ok = False
+        why = None
+        if lit.kind == "eq" and lit.pol and endp in (l_t, r_t):
+            other = r_t if l_t == endp else l_t
+            ok = other == text
+            why = None if ok else "the end pointer is compared with `%s`, the text converted is `%s`" % (other, text)
+        elif lit.kind == "eq" and lit.pol and "__errno_location" in lit.atom:
+            ok = conv.ERANGE in (l_v, r_v)
+            why = None if ok else "errno is compared with %s" % (l_v if l_v is not None else r_v)
+        elif (lit.kind == "eq" and lit.pol and val in (l_t, r_t) and 0 in (l_v, r_v)) or (lit.kind == "truth" and not lit.pol and lit.atom == val):
+            # value == 0 counts only together with errno != 0
+            req = cfg.required_literals(b)
+            ok = any(q is not None and q.kind == "eq" and not q.pol and "__errno_location" in q.atom and 0 in (conv.const_of(q.lhs), conv.const_of(q.rhs)) for q in req) or \
+                any(q is not None and q.kind == "truth" and q.pol and "__errno_location" in q.atom for q in req)
+            why = None if ok else "`%s == 0` refuses without `errno != 0`: the literal 0 itself is a conversion error" % val
+        elif lit.kind == "lt" and val in (l_t, r_t):
+            # value < lo  or  hi < value
+            if l_t == val and lit.pol:
+                ok = r_v == lo
+                why = None if ok else "`%s < %s`: the lower limit of the type is %s" % (val, r_v if r_v is not None else r_t, lo)
+            elif r_t == val and lit.pol:
+                ok = l_v == hi
+                why = None if ok else "`%s > %s`: the upper limit of the type is %s" % (val, l_v if l_v is not None else l_t, hi)
+            elif l_t == val and not lit.pol:            # !(value < c)  =  value >= c
+                ok = r_v == hi + 1
+                why = None if ok else "`%s >= %s`: the upper limit of the type is %s" % (val, r_v, hi)
+            elif r_t == val and not lit.pol:            # !(c < value)  =  value <= c
+                ok = l_v == lo - 1
+                why = None if ok else "`%s <= %s`: the lower limit of the type is %s" % (val, l_v, lo)
+        elif (lit.kind == "eq" and lit.pol and 45 in (l_v, r_v)) or (lit.kind == "truth" and lit.pol and lit.node.k == "CallExpr" and lit.node.j.get("callee") in ("strchr", "memchr")
+                                                                     and len(lit.node.call_args()) > 1 and lit.node.call_args()[1].const_value() == 45):
+            ok = not signed
+            why = None if ok else "a minus sign is refused for a signed type"
+        elif lit.kind == "truth" and lit.pol and "__errno_location" in lit.atom:
+            ok = False
+            why = "any errno left behind refuses"
+        else:
+            why = "`%s` is not one of the documented reasons" % lit
+        if not ok and bad is None:
+            bad = (cfg.blocks[b].cond, why)
+    if bad:
+        ctx.fail("R10", "%s refuses only for the documented reasons" % g, bad[0].where,
+                 "%s: a literal the type can represent is answered with ECONF_VALUE_CONVERSION_ERROR" % bad[1], key="over-refusal:%s" % g)
+    elif seen:
+        ctx.ok("R10", "%s refuses only for the documented reasons" % g, errs[0].where, "%d tests lead to the conversion error, each a documented one" % seen)
+    else:
+        ctx.inconclusive("R10", "%s refuses only for the documented reasons" % g, errs[0].where, "no test leading to the conversion error found")
+
+
+def r10_float_refusals(prog, ctx, g, f):
+    """R10 for the floating getters: refused are text without a number (`endptr == <the text>`), an overflow (`errno == ERANGE` together
+    with a result of +-HUGE_VAL) and `errno != 0 && result == 0` - nothing else (a subnormal or an infinity written by the setter reads back)."""
+    cfg = f.cfg
+    call = conv.strto_call(f)
+    text = render(call.call_args()[0])
+    a1 = call.call_args()[1].strip()
+    endp = render(a1.children[0]) if a1.k == "UnaryOperator" and a1.j.get("op") == "&" else None
+    up = call.up()
+    val = up.j["decls"][0]["name"] if up is not None and up.k == "DeclStmt" else (render(up.children[0]) if up is not None and up.k == "BinaryOperator" and up.j.get("op") == "=" else None)
+    errs = [r for r in f.returns() if query.returned_constant(r) == "ECONF_VALUE_CONVERSION_ERROR"]
+    if not errs or val is None:
+        ctx.inconclusive("R10", "%s refuses only for the documented reasons" % g, f.where, "conversion-error return / converted value not found")
+        return
+    eb = set(cfg.block_of(r) for r in errs)
+    cb = cfg.block_of(call)
+    bad, seen = None, 0
+    huge = []
+
+    def errno_req(b, want_erange):
+        for q in cfg.required_literals(b):
+            if q is None or "__errno_location" not in q.atom:
+                continue
+            if want_erange and q.kind == "eq" and q.pol and conv.ERANGE in (conv.const_of(q.lhs), conv.const_of(q.rhs)):
+                return True
+            if not want_erange and ((q.kind == "eq" and not q.pol and 0 in (conv.const_of(q.lhs), conv.const_of(q.rhs))) or (q.kind == "truth" and q.pol)):
+                return True
+        return False
+    for (b, i, s2) in cfg.edges():
+        if s2 not in eb or b in eb or cb not in cfg.reachable(b, forward=False):
+            continue
+        lit = cfg.edge_lit(b, i)
+        if lit is None:
+            continue
+        seen += 1
+        t = str(lit)
+        ok, why = False, "`%s` is not one of the documented reasons" % t
+        if lit.kind == "eq" and lit.pol and endp in (render(lit.lhs), render(lit.rhs)):
+            other = render(lit.rhs) if render(lit.lhs) == endp else render(lit.lhs)
+            ok = other == text
+            why = "the end pointer is compared with `%s`, the text converted is `%s`" % (other, text)
+        elif lit.kind == "eq" and lit.pol and val in (render(lit.lhs), render(lit.rhs)) and ("HUGE_VAL" in t or "inf" in t.lower() or "__builtin_huge_val" in t):
+            huge.append(t)
+            ok = errno_req(b, True)
+            why = "a result of HUGE_VAL refuses without `errno == ERANGE`: the infinity the setter wrote does not read back"
+        elif (lit.kind == "eq" and lit.pol and val in (render(lit.lhs), render(lit.rhs)) and 0 in (conv.const_of(lit.lhs), conv.const_of(lit.rhs))) or (
+                lit.kind == "truth" and not lit.pol and lit.atom == val):
+            ok = errno_req(b, False)
+            why = "`%s == 0` refuses without `errno != 0`: the literal 0 is a conversion error" % val
+        elif "__errno_location" in lit.atom:
+            ok = False
+            why = "`%s` alone refuses: strtod() also raises ERANGE for subnormal results, which are valid values" % t
+        if not ok and bad is None:
+            bad = (cfg.blocks[b].cond, why)
+    if huge and len(set(huge)) < 2:
+        ctx.fail("R10", "%s refuses an overflow in either direction" % g, errs[0].where,
+                 "only `%s` leads to the conversion error: the other infinity (or none, if the two tests are joined by &&) is handed out as a value for a literal "
+                 "beyond the range of the type" % huge[0], key="overflow-one-sided:%s" % g)
+    if bad:
+        ctx.fail("R10", "%s refuses only for the documented reasons" % g, bad[0].where,
+                 "%s: a literal the type can represent is answered with ECONF_VALUE_CONVERSION_ERROR" % bad[1], key="over-refusal:%s" % g)
+    elif seen:
+        ctx.ok("R10", "%s refuses only for the documented reasons" % g, errs[0].where, "%d tests lead to the conversion error, each a documented one" % seen)
+    else:
+        ctx.inconclusive("R10", "%s refuses only for the documented reasons" % g, errs[0].where, "no test leading to the conversion error found")
+
+
 def r5_bool(prog, ctx):
     for fname, labeller, what, consumer in (("getBoolValueNum", _get_label, "getter", _get_consumer), ("setBoolValueNum", _set_label, "setter", _set_consumer)):
         f = prog.fn(fname)
@@ -277,6 +423,14 @@ def r5_bool(prog, ctx):
                              "the text is compared after being copied into %s[%d] by a loop that stops when the array is full (%s %s %s): longer text is "
                              "cut and equality on the cut copy is a prefix match ('falsehood' reads as 'false')" % (
                                  st.arr.name, st.arr.size, sh.var, sh.cmp, sh.bound), key="bool-truncated:%s" % fname)
+        # ... and with the whole word: a comparison limited to the first n characters accepts every text that merely begins like the word
+        for c in f.calls(("strncmp", "strncasecmp", "memcmp")):
+            lits9 = [x.string_value() for x in c.call_args() if x.string_value() is not None]
+            nlim = c.call_args()[2].const_value() if len(c.call_args()) > 2 else None
+            if lits9 and (nlim is None or nlim <= len(lits9[0])):
+                ctx.fail("R5", "%s compares the whole text" % fname, c.where,
+                         "`%s` compares at most %s characters: every text that begins like \"%s\" ('yesterday', 'nonsense', '10') is taken for the word" % (
+                             render(c)[:60], nlim if nlim is not None else "n", lits9[0]), key="bool-prefix:%s" % fname)
         not_lowered = [x for x in compared if x not in lowered]
         if compared and not not_lowered:
             ctx.ok("R5", "%s is case-insensitive" % fname, f.where, "compared text %s is lower-cased first" % sorted(compared))
@@ -498,6 +652,7 @@ def run(prog, ctx):
     _common.import_obligations(ctx, prog, [_C11.a4, _C11.a4_no_entry_passed_over], "R8", "the getter reads the key asked for: ", what="lookup of the entry")
     # ... and the text it interprets is the text that was set: a string stored without its quotes turns "42" (text) into 42 (a number)
     _C11.a11_names_kept(prog, ctx, "R8")
+    _common.index_param_rule(prog, ctx, "R8")
     # R9: the objects the getters are called on after a layered read are alive: the merge hands out a new object, not one of the
     # parsed files that are released right after it (= C03.M0)
     from rules import C03 as _C03
@@ -511,7 +666,16 @@ def run(prog, ctx):
             r2_null_value(prog, ctx, g, f)
         if kind == "int":
             integer_getter(prog, ctx, g, f, width, signed)
+            try:
+                r10_refusal_reasons(prog, ctx, g, f, width, signed)
+            except Inconclusive as e:
+                ctx.inconclusive("R10", "%s refuses only for the documented reasons" % g, f.where, str(e))
         elif kind == "float":
+            try:
+                if conv.delegate_getter(f) is None:
+                    r10_float_refusals(prog, ctx, g, f)
+            except Inconclusive as e:
+                ctx.inconclusive("R10", "%s refuses only for the documented reasons" % g, f.where, str(e))
             dele = conv.delegate_getter(f)
             if dele is not None:
                 dw = conv.GETTERS[dele][0]
